@@ -17,7 +17,7 @@ structure WF (s : State) : Prop where
 
 theorem AnnTargetsLive.of_shrinks {s s' : State} (h : AnnTargetsLive s) (hs : Shrinks s s') : AnnTargetsLive s' := by
   intro x a' hx t ht
-  obtain ⟨a, ha, hk⟩ := hs.sub x a' hx
+  obtain ⟨a, ha, _, _, hk⟩ := hs.sub x a' hx
   have hl := h x a ha t (hk _ ht)
   cases hg : getLive s'.anns t with
   | some _ => rfl
